@@ -46,13 +46,14 @@ def run(W, p):
     N = W.idx(W.int("Nsteps", 1, p["nmax"]))
     P = W.idx(W.int("period", 1, p["pmax"]))
     r1 = W.idx(W.int("rel1", 0, N - 1)) if N > 1 else 0
+    r0 = W.idx(W.int("rel0", 0, r1))  # the first release may be later than the start: steps with an empty model
     kstep = W.idx(W.int("killstep", 0, N - 1))
     kflag = W.bool("killflag")
     x0 = W.real("x0", 6, 14)
     x1 = W.real("x1", 6, 14)
     u = W.real("u", -W.frac(1, 100), W.frac(1, 100))
     tmp = W.scratch()
-    W.table(tmp / "r.rls", ["release_time", "X", "Y", "Z"], [[W.dt(T0), x0, 10, 5], [W.dt(T0 + r1 * DT), x1, 11, 5]])
+    W.table(tmp / "r.rls", ["release_time", "X", "Y", "Z"], [[W.dt(T0 + r0 * DT), x0, 10, 5], [W.dt(T0 + r1 * DT), x1, 11, 5]])
     log = []
     if p["out"] == "plugin":
         output = dict(module=str(PLUG / "pout.py"), output_period=P * DT, log=log)
@@ -105,7 +106,7 @@ def run(W, p):
         pos += len(want)
         ev = {e[0]: e for e in got}
         # forcing sees the particles released this step
-        exp_pids = [0] + ([1] if r1 <= s else [])
+        exp_pids = ([0] if r0 <= s else []) + ([1] if r1 <= s else [])
         if killed is not None:
             exp_pids = [q for q in exp_pids if q != 0]
         fpids = [int(x) for x in ev["forcing"][2]]
@@ -134,14 +135,14 @@ def run(W, p):
         off = 0
         ok = True
         for k, s in enumerate([s for s in range(N) if s % P == 0]):
-            exp = [0] + ([1] if r1 <= s else [])
-            if W.truth(kflag) and kstep < s:
+            exp = ([0] if r0 <= s else []) + ([1] if r1 <= s else [])
+            if W.truth(kflag) and r0 <= kstep < s:
                 exp = [q for q in exp if q != 0]
             got = [int(x) for x in d["vars"]["pid"][off:off + pc[k]]] if k < len(pc) else None
             off += pc[k] if k < len(pc) else 0
             ok = ok and got == exp
         W.prove(ok, "kill-next-record", dict(N=N, P=P, killstep=kstep))
-    return (N, P, r1, kstep)
+    return (N, P, r0, r1, kstep)
 
 
 def warm(W, p):
